@@ -36,7 +36,8 @@ def isDistributive : Option (Expr V) → Bool
   | some (.agg op _ _ _) => distAggs.contains op
   | some (.aggP op _ _ p _) => distAggs.contains op && isConstant p
   | some (.call fn args) =>
-    !scalarFns.contains fn && !nonLocalCalls.contains fn && args.all fun a => isSeriesTyped a || isConstant a
+    !scalarFns.contains fn && !nonLocalCalls.contains fn && (args.all fun a => isSeriesTyped a || isConstant a) &&
+      args.any isSeriesTyped
   | some _ => true
 
 /-- `makeSubQueries` -/
